@@ -404,7 +404,7 @@ fn stale_corpus() -> Vec<Prog> {
 }
 
 pub fn run(o: &Opts) {
-    let mut sink = Sink::new(&o.out, o.shards, "Judge.C16", o.only.clone());
+    let mut sink = Sink::new(&o.out, o.shards, "Judge.C16 Judge.Hostile", o.only.clone());
     let mut idx = 0u64;
 
     selftest();
@@ -484,6 +484,10 @@ pub fn run(o: &Opts) {
         }
         idx += 1;
     }
+
+    // random hostile programs under a stack with pass-through layers around the capture layer
+    idx = base::hostile_random_cases(&mut sink, o, "C16-hostile", idx, if o.thorough { 20_000 } else { 300 } * o.scale, true);
+    let _ = idx;
 
     sink.finish(
         "one case = one guest program (stale follows-from targets allowed) executed with the real tracing API under Registry + a \
